@@ -183,6 +183,21 @@ class EmitClient(PathClient):
         return s
 
 
+def emitting_helper(classify, client):
+    """selector for norm.inline_helpers: inline exactly the same-module helpers that are not events themselves but
+    contain events (so that `extract helper` refactorings of an emission sequence do not change what is seen)"""
+    def sel(call, g):
+        if classify(client, None, call):
+            return False
+        for n in g.body_nodes():
+            if isinstance(n, ast.Call) and classify(client, None, n):
+                return True
+            if isinstance(n, ast.AugAssign) and isinstance(n.target, ast.Attribute) and n.target.attr == 'level':
+                return True
+        return False
+    return sel
+
+
 def _const_prefix(p, f, expr):
     """constant prefix/suffix of a string expression: ('<', '') for '<%s' % name"""
     if isinstance(expr, ast.Constant) and isinstance(expr.value, str):
@@ -259,7 +274,7 @@ def path_emit_html(p, res):
                     c.bad(call, src_of(call), 'the caret tabstop is emitted on a path where %s may be non-empty' % cond, s)
         return orig(it, s, call)
     c.on_call = on_call
-    fl = explore(p, f, c)
+    fl = explore(p, f, c, normal=emitting_helper(html_classify, c))
     emit(res, 'PATH-EMIT-HTML', f, c)
     pat = re.compile(r'^(CBEFORE )?OPEN( ATTR)? (SELFCLOSE|GT SNIPPET CLOSE( CAFTER)?|GT SNIPPET( VALUE)? CHILDREN( CARET)? CLOSE( CAFTER)?)$')
     n_open = 0
@@ -342,7 +357,7 @@ def path_emit_indent(p, res):
                           'the self-closing branch is taken on a path where %s may be non-empty: that content is dropped (the HTML formatter prints it)' % cond, s)
         return orig(it, s, call)
     c.on_call = on_call
-    explore(p, f, c)
+    explore(p, f, c, normal=emitting_helper(indent_classify, c))
     emit(res, 'PATH-EMIT-INDENT', f, c)
     pat = re.compile(r'^(NL )?(NAME )?PRIMARY SECONDARY( SELFCLOSE| VALUE( CHILD)?)?$')
     seen_flat = set()
@@ -697,50 +712,316 @@ def path_parser_ctx(p, res):
 
 
 # ---------------------------------------------------------------- PATH-ONCE
+class CopyLoopClient(PathClient):
+    """one iteration of the copy loop of convert_statement:  number the copy, convert it, accumulate it, charge the
+    budget, maybe stop, step the counter.  Roles are found by what the constructs do (callee, field written, variable
+    returned / compared in the loop test), never by the names of locals."""
+
+    IDLE = ('idle', False, 0, 0)           # (phase, numbered, charges, steps)
+
+    def __init__(self, p, f, conv, result, counter, loop):
+        super().__init__(p, f)
+        self.conv, self.result, self.counter, self.loop = conv, result, counter, loop
+        self.items = set()
+        self.inloop = set(id(n) for n in ast.walk(loop))
+        self.seen = {'conv': 0, 'acc': 0, 'charge': 0, 'step': 0, 'number': 0, 'break': 0}
+
+    def _is_conv(self, call):
+        t = self.p.resolve_call(self.f, call)
+        return isinstance(t, list) and t and all(x in self.conv for x in t)
+
+    def _has_conv(self, e):
+        return any(isinstance(n, ast.Call) and self._is_conv(n) for n in ast.walk(e))
+
+    def loop_enter(self, it, s, loop):
+        return self.set_auto(s, self.IDLE) if loop is self.loop else s
+
+    def on_call(self, it, s, call):
+        if id(call) not in self.inloop:
+            return s
+        ph, num, ch, stp = self.auto(s, self.IDLE)
+        if self._is_conv(call):
+            self.seen['conv'] += 1
+            if not num:
+                self.bad(call, src_of(call), 'a copy is converted before the running repeater was given the number of this copy', s)
+            if ph == 'conv':
+                self.bad(call, src_of(call), 'a second copy is converted in the same iteration while the previous one was not added to the result', s)
+            return self.set_auto(s, ('conv', num, ch, stp))
+        fn = call.func
+        if isinstance(fn, ast.Attribute) and fn.attr in ('extend',) and src_of(fn.value) == self.result and call.args:
+            return self._acc(s, call.args[0], call)
+        return s
+
+    def _acc(self, s, operand, node):
+        ph, num, ch, stp = self.auto(s, self.IDLE)
+        if (isinstance(operand, ast.Name) and operand.id in self.items) or self._has_conv(operand):
+            self.seen['acc'] += 1
+            if ph == 'acc':
+                self.bad(node, src_of(node), 'the same copy is added to the result twice', s)
+            return self.set_auto(s, ('acc', num, ch, stp))
+        return s
+
+    def on_store(self, it, s, target, value, stmt):
+        if id(stmt) not in self.inloop:
+            return s
+        ph, num, ch, stp = self.auto(s, self.IDLE)
+        v = stmt.value if isinstance(stmt, ast.Assign) else None
+        if isinstance(target, ast.Name) and v is not None and self._has_conv(v):
+            self.items.add(target.id)
+        if isinstance(target, ast.Attribute) and target.attr == 'value' and v is not None and src_of(v) == self.counter:
+            self.seen['number'] += 1
+            return self.set_auto(s, (ph, True, ch, stp))
+        if isinstance(target, ast.Name) and target.id == self.counter and v is not None:
+            if src_of(v) in ('%s + 1' % self.counter, '1 + %s' % self.counter):
+                self.seen['step'] += 1
+                return self.set_auto(s, (ph, num, ch, stp + 1))
+            self.bad(stmt, src_of(stmt), 'the copy counter is overwritten inside the loop', s)
+        if isinstance(target, ast.Name) and target.id == self.result and v is not None:
+            if src_of(v).startswith(self.result + ' + '):
+                return self._acc(s, v.right if isinstance(v, ast.BinOp) else v, stmt)
+            self.bad(stmt, src_of(stmt), 'the list of finished copies is overwritten inside the loop: earlier copies are lost', s)
+        return s
+
+    def on_aug(self, it, s, stmt):
+        if id(stmt) not in self.inloop:
+            return s
+        ph, num, ch, stp = self.auto(s, self.IDLE)
+        t = stmt.target
+        if isinstance(t, ast.Name) and t.id == self.result and isinstance(stmt.op, ast.Add):
+            return self._acc(s, stmt.value, stmt)
+        if isinstance(t, ast.Name) and t.id == self.counter:
+            if isinstance(stmt.op, ast.Add) and src_of(stmt.value) == '1':
+                self.seen['step'] += 1
+                return self.set_auto(s, (ph, num, ch, stp + 1))
+            self.bad(stmt, src_of(stmt), 'the copy counter must advance by exactly one per copy', s)
+        if isinstance(t, ast.Attribute) and t.attr == 'repeat_guard':
+            if isinstance(stmt.op, ast.Sub) and src_of(stmt.value) == '1':
+                self.seen['charge'] += 1
+                if ph == 'idle':
+                    self.bad(stmt, src_of(stmt), 'the repeat budget is charged when a copy is started, not when it is completed: a copy that is still being built uses up the budget of the copies inside it', s)
+                return self.set_auto(s, (ph, num, ch + 1, stp))
+            self.bad(stmt, src_of(stmt), 'the repeat budget must be charged by exactly one per completed copy', s)
+        return s
+
+    def loop_back(self, it, s, loop):
+        if loop is not self.loop:
+            return s
+        ph, num, ch, stp = self.auto(s, self.IDLE)
+        if ph != 'acc':
+            self.bad(loop, 'iteration of the copy loop', 'an iteration ends without adding a converted copy to the result (phase %s)' % ph, s)
+        if ch != 1:
+            self.bad(loop, 'iteration of the copy loop', 'the repeat budget is charged %d times in one iteration (must be once per completed copy)' % ch, s)
+        if stp != 1:
+            self.bad(loop, 'iteration of the copy loop', 'the copy counter advances %d times in one iteration (must be once): copies are skipped or numbered twice' % stp, s)
+        return self.set_auto(s, self.IDLE)
+
+    def on_exit(self, it, s, value, stmt):
+        a = self.auto(s, ())
+        if a and a != self.IDLE:
+            self._stop(s, self.loop, a, 'return out of the copy loop')
+        return s
+
+    def _stop(self, s, loop, a, how):
+        if True:
+            ph, num, ch, stp = a
+            self.seen['break'] += 1
+            if ph != 'acc':
+                self.bad(loop, how, 'the loop can stop before the copy of this iteration is complete: with an exhausted budget no copy at all is produced (one is documented)', s)
+            if ch != 1:
+                self.bad(loop, how, 'the loop stops without having charged this copy to the budget', s)
+            g = [k[1] for k, v in s.facts.items() if k[0] == 'cond' and 'repeat_guard' in k[1]]
+            if not g:
+                self.bad(loop, how, 'the loop is left early for a reason other than the repeat budget', s)
+
+    def loop_exit(self, it, s, loop):
+        if loop is not self.loop:
+            return s
+        a = self.auto(s, self.IDLE)
+        if a != self.IDLE:
+            self._stop(s, loop, a, 'break out of the copy loop')
+        return self.set_auto(s, ())
+
+
+def _cmp_normal(src):
+    """'<x> <= 0' style normal form of a comparison against a small integer:  (expr, op, k)"""
+    try:
+        e = ast.parse(src, mode='eval').body
+    except SyntaxError:
+        return None
+    neg = False
+    while isinstance(e, ast.UnaryOp) and isinstance(e.op, ast.Not):
+        neg, e = not neg, e.operand
+    if not (isinstance(e, ast.Compare) and len(e.ops) == 1):
+        return None
+    l, r, op = e.left, e.comparators[0], type(e.ops[0])
+    flip = {ast.Lt: ast.Gt, ast.Gt: ast.Lt, ast.LtE: ast.GtE, ast.GtE: ast.LtE, ast.Eq: ast.Eq, ast.NotEq: ast.NotEq}
+    if isinstance(l, ast.Constant) and isinstance(l.value, int) and not isinstance(r, ast.Constant):
+        l, r, op = r, l, flip.get(op)
+    if not (isinstance(r, ast.Constant) and isinstance(r.value, int)) or op is None:
+        return None
+    k = r.value
+    inv = {ast.Lt: ast.GtE, ast.GtE: ast.Lt, ast.Gt: ast.LtE, ast.LtE: ast.Gt, ast.Eq: ast.NotEq, ast.NotEq: ast.Eq}
+    if neg:
+        op = inv[op]
+    # integers:  x < k  ==  x <= k-1 ;  x >= k == x > k-1
+    if op is ast.Lt:
+        op, k = ast.LtE, k - 1
+    if op is ast.GtE:
+        op, k = ast.Gt, k - 1
+    return (src_of(l), {ast.LtE: '<=', ast.Gt: '>', ast.Eq: '==', ast.NotEq: '!='}[op], k)
+
+
+def _ordered_full_loop(res, rname, p, f, node, coll_attr, conv_name, what):
+    """a for loop over <x>.<coll_attr> whose body accumulates conv(<item>, ..) : complete and in order?"""
+    from .. import shape
+    loops = [n for n in shape.own_nodes(node) if isinstance(n, ast.For) and any(isinstance(c, ast.Call) and isinstance(c.func, ast.Name) and c.func.id == conv_name for c in ast.walk(n))]
+    comps = [n for n in shape.own_nodes(node) if isinstance(n, (ast.ListComp, ast.GeneratorExp)) and any(isinstance(c, ast.Call) and isinstance(c.func, ast.Name) and c.func.id == conv_name for c in ast.walk(n.elt))]
+    if len(loops) + len(comps) != 1:
+        res.undecided('%s: %s' % (f.short, what), 'exactly one loop/comprehension converting the items is expected')
+        return
+    if loops:
+        lp = loops[0]
+        it, tgt, filt = lp.iter, lp.target, [x for x in ast.walk(lp) if isinstance(x, (ast.Break, ast.Continue, ast.If, ast.Return))]
+    else:
+        g = comps[0].generators
+        if len(g) != 1:
+            res.undecided('%s: %s' % (f.short, what), 'single generator expected')
+            return
+        it, tgt, filt = g[0].iter, g[0].target, list(g[0].ifs)
+        lp = comps[0]
+    its = src_of(it)
+    if isinstance(it, ast.Attribute) and it.attr == coll_attr and not filt:
+        # the converted item is the loop variable
+        calls = [c for c in ast.walk(lp) if isinstance(c, ast.Call) and isinstance(c.func, ast.Name) and c.func.id == conv_name]
+        if all(c.args and src_of(c.args[0]) == src_of(tgt) for c in calls) and len(calls) == 1:
+            accum = True
+            if loops:
+                body = lp.body
+                accum = len(body) == 1 and ((isinstance(body[0], ast.AugAssign) and isinstance(body[0].op, ast.Add) and body[0].value is calls[0])
+                                            or (isinstance(body[0], ast.Expr) and isinstance(body[0].value, ast.Call) and isinstance(body[0].value.func, ast.Attribute)
+                                                and body[0].value.func.attr in ('extend', 'append') and body[0].value.args and body[0].value.args[0] is calls[0]))
+            if accum:
+                res.ok('%s: %s: every item of .%s converted once, in order' % (f.short, what, coll_attr))
+                return
+        res.undecided('%s: %s' % (f.short, what), 'loop body is not a plain accumulation of %s(item)' % conv_name)
+        return
+    if (isinstance(it, ast.Call) and isinstance(it.func, ast.Name) and it.func.id in ('reversed', 'sorted', 'set')) or \
+            (isinstance(it, ast.Subscript) and isinstance(it.slice, ast.Slice) and isinstance(it.value, ast.Attribute) and it.value.attr == coll_attr):
+        res.bad(F(rname, f, lp, 'for .. in %s' % its, '%s: the items of .%s must all be converted, in written order (this iterates %s)' % (what, coll_attr, its)))
+        return
+    if filt and isinstance(it, ast.Attribute) and it.attr == coll_attr and any(isinstance(x, (ast.Break, ast.Continue, ast.Return)) for x in filt):
+        res.bad(F(rname, f, filt[0], src_of(filt[0]).split('\n')[0], '%s: an item of .%s can be skipped / the loop can stop early' % (what, coll_attr)))
+        return
+    res.undecided('%s: %s' % (f.short, what), 'iteration over %s not recognised' % its)
+
+
 @rule('PATH-ONCE', 'N', 'converter loops visit every written element once, in order, and attach copies in order')
 def path_once(p, res):
+    from .. import norm, shape
+    from ..pattern import find_stmt, find_expr
     ce = p.func('abbreviation.convert.convert_element')
-    s = src_of(ce.node)
-    if 'for child in node.elements:\n        elem.children += convert_statement(child, state)' in s:
-        res.ok('convert_element: children converted in order, once')
-    else:
-        res.bad(F('PATH-ONCE', ce, ce.node, 'child loop of convert_element', 'every child must be converted once, in order, and appended to elem.children'))
-    if 'elem.attributes = [convert_attribute(attr, state) for attr in node.attributes]' in s:
-        res.ok('convert_element: attributes converted in order')
-    else:
-        res.bad(F('PATH-ONCE', ce, ce.node, 'attribute conversion of convert_element', 'attributes must be converted one to one, in order'))
+    cen = norm.nf(p, ce, inline=True)
+    _ordered_full_loop(res, 'PATH-ONCE', p, ce, cen, 'elements', 'convert_statement', 'children')
+    _ordered_full_loop(res, 'PATH-ONCE', p, ce, cen, 'attributes', 'convert_attribute', 'attributes')
     cg = p.func('abbreviation.convert.convert_group')
-    s = src_of(cg.node)
-    if 'for child in node.elements:\n        result += convert_statement(child, state)' in s and 'if node.repeat:\n        result = attach_repeater(result, node.repeat)' in s:
-        res.ok('convert_group: children in order; group repeater attached to the results')
+    cgn = norm.nf(p, cg, inline=True)
+    _ordered_full_loop(res, 'PATH-ONCE', p, cg, cgn, 'elements', 'convert_statement', 'group children')
+    hits = find_stmt('if $n.repeat:\n    $r = attach_repeater($r, $n.repeat)', cgn)
+    rets = [n for n in shape.own_nodes(cgn) if isinstance(n, ast.Return)]
+    if len(hits) == 1 and len(rets) == 1 and src_of(rets[0].value) == src_of(hits[0][1]['r']):
+        res.ok('convert_group: group repeater attached to the results')
+    elif not any(isinstance(c, ast.Call) and isinstance(c.func, ast.Name) and c.func.id == 'attach_repeater' for c in ast.walk(cgn)):
+        res.bad(F('PATH-ONCE', cg, cg.node, 'attach_repeater(...)', 'a repeated group must hand its repeater to the nodes it produced (numbering inside unrolled groups)'))
     else:
-        res.bad(F('PATH-ONCE', cg, cg.node, 'convert_group body', 'a group converts its children in order and hands its repeater to the resulting nodes'))
+        res.undecided('convert_group: attach_repeater', 'shape of the repeater hand-over not recognised')
+    # ---- the copy loop
     cs = p.func('abbreviation.convert.convert_statement')
-    s = src_of(cs.node)
-    need = ['repeat = clone_repeater(node.repeat)', 'state.repeaters.append(repeat)', 'result += items', 'state.repeat_guard -= 1',
-            'if state.repeat_guard <= 0:\n                break', 'i += 1', 'node.repeat = original',
-            'items = convert_group(node, state) if is_group(node) else convert_element(node, state)']
-    for w in need:
-        if w in s:
-            res.ok('convert_statement: ' + w.replace('\n', ' '))
+    csn = norm.nf(p, cs, inline=False)
+    conv = [p.func('abbreviation.convert.convert_group'), p.func('abbreviation.convert.convert_element')]
+    rets = [n for n in shape.own_nodes(csn) if isinstance(n, ast.Return)]
+    whiles = [n for n in shape.own_nodes(csn) if isinstance(n, ast.While)]
+    loop = whiles[0] if len(whiles) == 1 else None
+    counter = None
+    if loop is not None and isinstance(loop.test, ast.Compare) and len(loop.test.ops) == 1 and isinstance(loop.test.ops[0], ast.Lt) and isinstance(loop.test.left, ast.Name):
+        counter = loop.test.left.id
+    if not (rets and all(isinstance(r.value, ast.Name) and r.value.id == rets[0].value.id for r in rets)) or loop is None:
+        res.undecided('copy loop of convert_statement', 'one while loop and one returned list expected')
+    elif any('repeat_guard' in src_of(x) for x in ast.walk(loop.test) if isinstance(x, ast.Attribute)):
+        res.bad(F('PATH-ONCE', cs, loop, 'while %s' % src_of(loop.test), 'the repeat budget is tested before the first copy: with an exhausted budget the repeater yields no copy at all (one is documented)'))
+    elif counter is None:
+        res.undecided('while %s' % src_of(loop.test), 'loop test must be <counter> < <count>')
+    else:
+        result = rets[0].value.id
+        c = CopyLoopClient(p, cs, conv, result, counter, loop)
+        it_body = csn.body
+        from ..absint import Interp, State
+        fl = Interp(p, cs, c, body=it_body).run([State({})])
+        emit(res, 'PATH-ONCE', cs, c)
+        for k in ('conv', 'acc', 'charge', 'step', 'number'):
+            if c.seen[k] == 0:
+                msg = {'conv': 'no copy is converted in the loop', 'acc': 'converted copies are never added to the returned list',
+                       'charge': 'the repeat budget is never charged: maxRepeat has no effect', 'step': 'the copy counter never advances',
+                       'number': 'the running repeater is never given the number of the current copy'}[k]
+                if k in ('charge',) or c.seen['conv']:
+                    res.bad(F('PATH-ONCE', cs, loop, 'copy loop: %s' % k, msg))
+                else:
+                    res.undecided('copy loop: %s' % k, msg)
+        if c.seen['break'] == 0 and c.seen['charge']:
+            res.bad(F('PATH-ONCE', cs, loop, 'copy loop: stop', 'nothing stops the loop when the repeat budget is used up'))
+        if not c.violations and all(c.seen.values()):
+            res.ok('convert_statement: each iteration numbers, converts, accumulates, charges, then may stop, then steps (%d states)' % len(fl.ret), n=5)
+        # the stop condition:  budget <= 0  after the charge
+        brk = [n for n in ast.walk(loop) if isinstance(n, (ast.Break, ast.Return))]
+        pm = shape.parent_map(csn)
+        for b in brk:
+            facts = [(fs, pol) for fs, pol in shape.implied(b, pm, root=loop) if 'repeat_guard' in fs]
+            nf_ = [_cmp_normal(fs if pol else 'not (%s)' % fs) for fs, pol in facts]
+            if len(nf_) == 1 and nf_[0] is not None and nf_[0][1:] == ('<=', 0):
+                res.ok('stop exactly when the budget is used up: %s' % facts[0][0])
+            elif len(nf_) == 1 and nf_[0] is not None and nf_[0][1] in ('<=', '==') :
+                res.bad(F('PATH-ONCE', cs, b, 'break if %s' % facts[0][0], 'the loop must stop as soon as the budget reaches 0 after the charge (<= 0); this stops at a different count, so the number of copies differs from maxRepeat'))
+            elif nf_:
+                res.undecided('break if %s' % facts, 'stop condition on the budget not recognised')
+        # count defaults: repeat.count = len(clean_text) for implicit with list text, else count or 1
+        hits = find_stmt('$r.count = len($s.clean_text) if $r.implicit and isinstance($s.text, list) else $r.count or 1', csn)
+        if len(hits) == 1:
+            res.ok('count: number of text lines for implicit repeaters over a list, else count or 1')
         else:
-            res.bad(F('PATH-ONCE', cs, cs.node, w.replace('\n', ' '), 'copy loop of convert_statement changed'))
-    # order inside the loop: result += items precedes the guard decrement and the break test
-    if all(w in s for w in need) and s.index('result += items') < s.index('state.repeat_guard -= 1') < s.index('if state.repeat_guard <= 0') < s.index('i += 1'):
-        res.ok('a copy is completed (result += items) before the repeat budget is charged and tested')
-    else:
-        res.bad(F('PATH-ONCE', cs, cs.node, 'order of result += items / repeat_guard -= 1 / break / i += 1', 'at least one copy must be emitted before the repeat limit stops the loop'))
+            res.undecided('repeat.count = ...', 'count default shape')
+        # restore of node.repeat after the loop and pop of the repeater are PATH-STACK / OWN-CALLER obligations
     st = p.cls('abbreviation.convert.ConvertState').methods['__init__']
-    if 'self.repeat_guard = max_repeat if max_repeat is not None else 1000000' in src_of(st.node):
-        res.ok('repeat_guard = max_repeat or a large default')
+    stn = norm.nf(p, st, inline=False)
+    defs = {}
+    stores = [n for n in shape.own_nodes(stn) if isinstance(n, ast.Assign) and src_of(n.targets[0]) == 'self.repeat_guard']
+    mr = [a for a in st.params if a in ('max_repeat',)]
+    if len(stores) == 1:
+        v = stores[0].value
+        vs = src_of(v)
+        names = {x.id for x in ast.walk(v) if isinstance(x, ast.Name)}
+        big = [x.value for x in ast.walk(v) if isinstance(x, ast.Constant) and isinstance(x.value, int)]
+        for nm in list(names):
+            ee = p.resolve_name(st, nm)
+            if ee is not None and ee.kind == 'const':
+                cv = p.try_const(st.module, ast.Name(id=nm, ctx=ast.Load()))
+                if isinstance(cv, int):
+                    big.append(cv)
+        if 'max_repeat' in names and isinstance(v, ast.IfExp) and src_of(v.test) in ('max_repeat is not None', 'max_repeat is None') and big and max(big) >= 100000:
+            res.ok('repeat_guard = max_repeat, or a large default when no limit is given')
+        elif 'max_repeat' not in names:
+            res.bad(F('PATH-ONCE', st, stores[0], src_of(stores[0]), 'the repeat budget must come from max_repeat'))
+        elif isinstance(v, ast.BoolOp):
+            res.bad(F('PATH-ONCE', st, stores[0], src_of(stores[0]), 'max_repeat == 0 is a limit, not "no limit": the default may only replace None'))
+        else:
+            res.undecided(src_of(stores[0]), 'budget initialisation not recognised')
     else:
-        res.bad(F('PATH-ONCE', st, st.node, 'self.repeat_guard = ...', 'the repeat budget must come from max_repeat'))
-    # text-only snippet hoisting uses the already converted attributes
-    if "if not elem.name and elem.attributes is None and elem.value and (not some(elem.value, is_field)):\n        result += elem.children\n        elem.children = []" in src_of(ce.node):
+        res.undecided('self.repeat_guard = ...', 'one initialisation of the budget expected')
+    # text-only snippet hoisting
+    hits = find_stmt('if not $e.name and $e.attributes is None and $e.value and (not some($e.value, is_field)):\n    $r += $e.children\n    $e.children = []', cen)
+    if len(hits) == 1:
         res.ok('text-only snippet: children become siblings')
     else:
-        res.bad(F('PATH-ONCE', ce, ce.node, 'text-only snippet test', 'children are hoisted only for nameless, attribute-less text nodes without fields'))
-    res.require_floor(12)
+        res.undecided('text-only snippet test', 'children are hoisted only for nameless, attribute-less text nodes without fields')
+    res.require_floor(8)
 
 
 # ----------------------------------------------------------- PATH-EMIT-ATTR
